@@ -32,7 +32,7 @@ func init() {
 	prop("C02", []string{"P-FORMAT-GATE", "P-ATOMIC-WRITE", "P-ERR-PROP", "W-PANICS", "T-TOKCONTENT", "P-NILGUARD"},
 		"No success path to the caller's writer avoids format.Source (File.Render: unless NoFormat); the formatter runs once on the private buffer and both modes draw from the same buffer; a formatter error is returned, never written as if valid; the only explicit panic reachable from Render / RenderWithFile / Save is the documented one for unsupported Lit types; token type assertions and item dereferences in the renderer cannot fail. Validity of the bytes then follows from format.Source's contract (trusted).",
 		"that every syntactically invalid composition makes the formatter fail (a property of go/parser)")
-	prop("C03", []string{"P-REGISTER", "P-VALIDALIAS", "P-TOKEN", "P-IMPORTBLOCK", "W-REGISTER-CALLERS", "W-IMPORTS-WRITERS", "W-FILE-ARGS"},
+	prop("C03", []string{"P-REGISTER", "P-VALIDALIAS", "P-TOKEN", "P-IMPORTBLOCK", "W-REGISTER-CALLERS", "W-IMPORTS-WRITERS", "W-FILE-ARGS", "T-REGEX", "T-RESERVED"},
 		"Import bookkeeping decided on every path of the registration function (path enumeration, loop unrolled twice): no alias ⇒ the stored name is the raw hint or standard-library name; guessed or modified names ⇒ alias; checked = stored = returned; first registration wins; the collision test sees every entry; the qualifier written by a package token is the registered name; the import line prints that same entry's name and path, with an alias iff flagged.",
 		"that names supplied by the user through ImportName are truthful")
 	prop("C04", []string{"W-IMPORTS-WRITERS", "W-REGISTER-CALLERS", "W-ISNULL-PURE", "P-RENDERITEMS", "P-STMTRENDER", "P-DICT", "P-FILERENDER-ORDER", "P-IMPORTBLOCK", "P-CTOR"},
@@ -47,7 +47,7 @@ func init() {
 	prop("C07", []string{"P-MAPRANGE", "W-NONDET-API", "P-TAG"},
 		"Every range over a map in jen has only order-insensitive effects (updates keyed by the range key, collected slices sorted before any other read, no output / registration / concatenation inside the loop) and nothing in jen consults a clock, randomness, the environment or formats an address. One known finding on the pinned tree: Dict.render renders keys (and thereby registers imports) inside its map range.",
 		"determinism of sort / fmt / go/format themselves; the order among Dict pairs whose keys render identically")
-	prop("C08", []string{"W-RENDER-STORES", "W-IMPORTS-WRITERS", "P-REGISTER", "P-FRAGMENT", "P-GROUPRENDER"},
+	prop("C08", []string{"W-RENDER-STORES", "W-IMPORTS-WRITERS", "P-REGISTER", "P-FRAGMENT", "P-GROUPRENDER", "P-MAPRANGE@@!registration function"},
 		"Nothing reachable from any render / isNull implementation or render entry point stores to memory that existed before the call, except new File.imports entries made by the registration function (mod-ref summaries over the module call graph); File.imports is never reset, deleted from or re-assigned; the registration function returns the stored name for a known path before consulting hints; fragment renders use the caller's File; the brace-less case-block form is chosen per render from local copies.",
 		"byte equality of successive renders additionally relies on C07's clauses and on the determinism of the standard library")
 	prop("C09", []string{"W-GLOBALS-RO", "W-NO-CONCURRENCY", "W-RENDER-STORES", "W-NONDET-API", "W-FILE-ARGS"},
@@ -77,13 +77,13 @@ func init() {
 	prop("C17", []string{"P-TAG", "P-MAPRANGE@(jen.tag)", "P-ISNULL@(jen.tag)"},
 		"tag.render writes each pair as key:\"value\" with the value through %q and the value looked up under the printed key, pairs from the sorted key slice joined by exactly one space; the literal is back-quoted only under strconv.CanBackquote and otherwise produced by strconv.Quote; an empty tag is null.",
 		"the round trip through reflect.StructTag for every value (a property of %q and reflect)")
-	prop("C18", []string{"T-STDHINTS", "P-REGISTER", "T-GENNAMES", "W-IMPORTS-WRITERS@hints"},
+	prop("C18", []string{"T-STDHINTS", "P-REGISTER", "T-GENNAMES", "W-IMPORTS-WRITERS@hints", "P-IMPORTBLOCK"},
 		"Every entry of the standard-library table whose package is importable equals the package clause parsed from GOROOT/src of the installed toolchain (exhaustive over the table); a table hit may be stored without alias, a guessed name never; gennames reads the go-list fields back from the positions its template wrote them to and emits path: name.",
 		"the output of actually running gennames (it shells out to `go list`); packages newer than the table get a guessed alias, which the property allows")
 	prop("C19", []string{"P-REGISTER", "P-IMPORTBLOCK", "P-FILERENDER-ORDER"},
 		"The \"C\" branch of registration stores {\"C\", no alias} and returns C; hint lookup, prefix and numbering happen only on paths with path ≠ \"C\"; no import line prints an alias for \"C\"; \"C\" is left out of the main block only when a preamble exists; each preamble comment is followed by exactly one newline and `import \"C\"` is written directly after the last one, after the main block.",
 		"cgo's own parsing of the preamble")
-	prop("C20", []string{"P-CLONE", "P-API-FORMS"},
+	prop("C20", []string{"P-CLONE", "P-API-FORMS", "W-RENDER-STORES@append"},
 		"Clone returns a freshly allocated statement whose slice has a fresh backing array (never the original's slice header or a re-slice of it); every builder method appends in place to its own receiver and returns it, so appends to a clone cannot reach the original's backing array and vice versa.",
 		"nothing further: for this property the structural condition is also sufficient")
 }
